@@ -200,7 +200,7 @@ func c17Oracle(name string) func(x *sched.X, r *vsched.Result) []common.Violatio
 			}
 		}
 		for t, n := range savedTwice {
-			if n > 1 {
+			if n > 1 && !removed[t] { // with a removal in between a second save is legitimate: the sequential-order oracle judges that
 				out = append(out, common.Violation{Predicate: "C17.save-once", Key: "C17.same-transaction-saved-twice", What: fmt.Sprintf("%s: %d concurrent saves of %s all succeeded", name, n, t)})
 			}
 		}
@@ -211,7 +211,25 @@ func c17Oracle(name string) func(x *sched.X, r *vsched.Result) []common.Violatio
 			}
 		}
 		sort.Strings(want)
+		// the results of the saves and removals and the two final listings must be those of some sequential
+		// order of the calls that respects their real-time order
+		finalI, finalRc := x.Vars["final-I"].(*c17Call).got, x.Vars["final-Rc"].(*c17Call).got
+		lin, orders := c17Linearizable(w.calls, finalI, finalRc)
+		x.Vars["orders"] = orders
+		if !lin {
+			var res []string
+			for _, c := range w.calls {
+				if c.Kind != "read" {
+					res = append(res, fmt.Sprintf("%s:%s:%s=%v", c.Kind, c.Tx, c.By, c.ok))
+				}
+			}
+			out = append(out, common.Violation{Predicate: "C17.sequential-order", Key: "C17.no-sequential-order/" + name,
+				What: fmt.Sprintf("%s: results %v with final lists issuer=%v receiver=%v are produced by none of the %d admissible sequential orders of the calls", name, res, finalI, finalRc, orders)})
+		}
 		for _, who := range []string{"I", "Rc"} {
+			if lin {
+				break
+			}
 			got := x.Vars["final-"+who].(*c17Call).got
 			if strings.Join(got, ",") != strings.Join(want, ",") {
 				kind := "lost"
@@ -272,6 +290,79 @@ func c17Oracle(name string) func(x *sched.X, r *vsched.Result) []common.Violatio
 	}
 }
 
+// c17Linearizable enumerates the orders of the save/remove calls that respect real time (a call that ended
+// before another started comes first) and runs the map reference over each; it reports whether one of them
+// reproduces every result and both final listings, and how many orders were admissible.
+func c17Linearizable(calls []*c17Call, finalI, finalRc []string) (bool, int) {
+	var cs []*c17Call
+	for _, c := range calls {
+		if c.Kind != "read" {
+			cs = append(cs, c)
+		}
+	}
+	receiver := func(tx string) string {
+		if tx == "t3" {
+			return "I"
+		}
+		return "Rc"
+	}
+	used := make([]bool, len(cs))
+	present := map[string]bool{}
+	orders, found := 0, false
+	var rec func(n int)
+	rec = func(n int) {
+		if n == len(cs) {
+			orders++
+			var l []string
+			for t, p := range present {
+				if p {
+					l = append(l, t)
+				}
+			}
+			sort.Strings(l)
+			if strings.Join(l, ",") == strings.Join(finalI, ",") && strings.Join(l, ",") == strings.Join(finalRc, ",") {
+				found = true
+			}
+			return
+		}
+		for i, c := range cs {
+			if used[i] {
+				continue
+			}
+			early := true
+			for j, d := range cs {
+				if !used[j] && j != i && d.end < c.start {
+					early = false
+				}
+			}
+			if !early {
+				continue
+			}
+			was := present[c.Tx]
+			var ok bool
+			if c.Kind == "save" {
+				ok = !was
+				if ok {
+					present[c.Tx] = true
+				}
+			} else {
+				ok = was && c.By == receiver(c.Tx)
+				if ok {
+					present[c.Tx] = false
+				}
+			}
+			if ok == c.ok {
+				used[i] = true
+				rec(n + 1)
+				used[i] = false
+			}
+			present[c.Tx] = was
+		}
+	}
+	rec(0)
+	return found, orders
+}
+
 func c17Scenarios() map[string]*sched.Scenario {
 	m := map[string]*sched.Scenario{}
 	opt := vsched.Options{BranchSched: true, BranchData: true}
@@ -297,6 +388,9 @@ func c17Scenarios() map[string]*sched.Scenario {
 	add("G/unauthorized-remove||read", "save:t1", "remove:t1:I", "read:Rc")
 	add("H/save,read||save,read", "", "save:t1,read:I", "save:t2,read:Rc")
 	add("I/cross-direction", "", "save:t1", "save:t3")
+	add("J/remove||re-save", "save:t1", "remove:t1:Rc", "save:t1")
+	add("K/remove||re-save||save", "save:t1", "remove:t1:Rc", "save:t1", "save:t2")
+	add("L/save,remove||save-same", "", "save:t1,remove:t1:Rc", "save:t1")
 	return m
 }
 
